@@ -136,6 +136,8 @@ def run(rep):
     rep.floor("obligations:order", nk * 10)
     row_carry(rep)
     rep.floor("obligations:order-dir", 64)
+    xy_at_preconditions(rep)
+    no_narrowed_offsets(rep)
     from .p06 import accept_inconclusive
     accept_inconclusive(rep, "c03_inconclusive.json")
 
@@ -183,3 +185,111 @@ def row_carry(rep):
             else:
                 rep.violation("row-carry", "row-carry:distance_to", "%s:%s" % (where, f["line"]), {"returned": [repr(g) for g in got], "documented": repr(want)})
     rep.floor("obligations:row-carry", 3)
+
+
+
+def xy_at_preconditions(rep):
+    """L10: image_view::xy_at only forms a locator (no pixel is touched): its debug preconditions must admit every position up to and including the end
+    in both coordinates, as axis_iterator and x_at do -- the view factories and the position based algorithms call xy_at(0,0) on views that may be empty"""
+    import os
+    from .ast import rules as R
+    rep.rule("L10 image_view::xy_at (both overloads, assertions enabled): the asserted bounds are inclusive (x <= width(), y <= height()) in both coordinates; a strict bound "
+             "makes xy_at(0,0) abort on a view without pixels, which flipped_up_down_view, transposed_view, rotated90cw_view, subsampled_view, subimage_view, "
+             "for_each_pixel_position and transform_pixel_positions all evaluate")
+    wd = C.workdir("C03assert")
+    src = os.path.join(wd, "xy_at.cpp")
+    open(src, "w").write('#include "vf_common.hpp"\nusing namespace vf;\nvoid inst(rgb8_view_t const& v){ (void)v.xy_at(0, 0); (void)v.xy_at(point_t(0, 0)); }\n')
+    d = C.astdump(src, os.path.join(wd, "xy_at.json"), ["^boost::gil::image_view::xy_at$"], defs=["-DBOOSTORG_GIL_VERIF"])      # no NDEBUG: BOOST_ASSERT is live
+    for f in d["functions"]:
+        g = R.canonize(f)
+        form = "point" if len(f["params"]) == 1 else "x,y"
+        asserts = []
+        for x, _ in R.find(g["body"], lambda x: x.get("k") == "Cond" and "__assert_fail" in R.key(x.get("else") or {})):
+            for cmp_, _ in R.find(x["cond"], lambda y: y.get("k") == "Binary" and y.get("op") in ("<", "<=", ">", ">=")):
+                asserts.append(R.norm_cmp(cmp_["op"], R.key(cmp_["l"]), R.key(cmp_["r"])))
+        rep.count("obligations:L10")
+        key = "L10:image_view::xy_at(%s)" % form
+        xs = "$0" if form == "x,y" else "$0.x"
+        ys = "$1" if form == "x,y" else "$0.y"
+        strict = [a for a in asserts if (a[0] == "<" and a[1] in (xs, ys) and a[2] in ("this.width()", "this.height()")) or (a[0] == ">" and a[2] in (xs, ys) and a[1] in ("this.width()", "this.height()"))]
+        if strict:
+            rep.violation("L10-xy_at-precondition", key, R.fn_where(f), {"assertions": [" ".join((a[1], a[0], a[2])) for a in asserts], "strict": [" ".join((a[1], a[0], a[2])) for a in strict],
+                          "example": "subimage_view(view, 1, 1, 0, 3) gives a 0x3 view; transposed_view / for_each_pixel_position of it abort in xy_at(0,0) with assertions enabled"})
+        else:
+            rep.ok("L10-xy_at-precondition", key, [" ".join((a[1], a[0], a[2])) for a in asserts])
+    rep.floor("obligations:L10", 2)
+
+
+NAV_DRIVER = r"""
+#include "vf_common.hpp"
+using namespace vf;
+template <class V> std::ptrdiff_t inst(V const& v, std::ptrdiff_t n, std::ptrdiff_t x, std::ptrdiff_t y) {
+  auto it = v.x_at(x,y); it += n; auto jt = it + n; --jt; ++jt; auto yt = v.y_at(x,y); yt += n; --yt; ++yt; auto l = v.xy_at(x,y); l += point_t(n,n); l -= point_t(1,1);
+  auto b = v.begin(); b += n; ++b; --b; (void)v(x,y); (void)l(n,n); (void)v[n]; (void)v.row_begin(y)[x]; (void)v.col_begin(x)[y]; (void)(it < jt);
+  (void)l.x_at(n,n); (void)l.y_at(n,n); (void)l.xy_at(n,n); (void)v.is_1d_traversable(); (void)v.end(); (void)v.rbegin();
+  return (jt - it) + (yt - v.y_at(x,y)) + (b - v.begin());
+}
+template <class V> std::ptrdiff_t inst2(V const& v, std::ptrdiff_t n, std::ptrdiff_t x, std::ptrdiff_t y) {
+  auto l = v.xy_at(x,y); auto c = l.cache_location(n,n); (void)l[c]; return inst(v,n,x,y); }
+#define I(K) std::ptrdiff_t u_##K(K const& v, std::ptrdiff_t n, std::ptrdiff_t x, std::ptrdiff_t y){ return inst2(v,n,x,y);}
+I(k_inter) I(k_planar) I(k_planar16) I(k_xstep) I(k_xystep) I(k_pstep) I(k_pT) I(k_packed) I(k_packstep) I(k_bits) I(k_bits7) I(k_bits1) I(k_bitstep)
+I(k_nth) I(k_kth) I(k_ccv) I(k_deref) I(k_derefs) I(k_gray16) I(k_g16step) I(k_rgba32f)
+std::ptrdiff_t u_virt(k_virt const& v, std::ptrdiff_t n, std::ptrdiff_t x, std::ptrdiff_t y){ return inst(v,n,x,y);}
+"""
+
+_I32 = {"int", "unsigned int", "short", "unsigned short", "char", "signed char", "unsigned char", "bool"}
+_I64 = {"long", "unsigned long", "long long", "unsigned long long"}
+
+
+def no_narrowed_offsets(rep):
+    """L11: offsets are difference_type (64-bit) quantities; D-poly reads a 64->32 bit truncation of an offset as the identity (recorded assumption).
+    This rule discharges that assumption structurally: no navigation function narrows a run-time offset before it is reduced."""
+    import os
+    from .ast import rules as R
+    rep.rule("L11 in every function instantiated by navigating views of all kinds (x/y/1-D iterators, locators, cached locations, bit-aligned bit ranges) no integral cast from a 64-bit "
+             "to a narrower type is applied to a run-time value, unless the operand is already reduced (x % c, x & c with constant c, a comparison, or a value of a narrower type widened before). "
+             "Witness for a violation: an advance of 2^31 bits (a bit-aligned image beyond 256 MiB) lands 2^32 bits before its target")
+    wd = C.workdir("C03narrow")
+    src = os.path.join(wd, "nav.cpp")
+    open(src, "w").write(NAV_DRIVER)
+    d = C.astdump(src, os.path.join(wd, "nav.json"), ["^boost::gil::"])
+    fns = d["functions"]
+    rep.units.append("navigation driver: %d instantiated functions" % len(fns))
+
+    def reduced(e):
+        while isinstance(e, dict) and e.get("k") in ("Paren",):
+            e = e["e"]
+        if not isinstance(e, dict):
+            return False
+        if "const" in e:
+            return True
+        if e.get("k") == "Binary" and e.get("op") in ("%", "&") and ("const" in (e["r"] or {}) or R.key(e["r"]).lstrip("-").isdigit()):
+            return True
+        if e.get("k") == "Binary" and e.get("op") in ("<", "<=", ">", ">=", "==", "!=", "&&", "||"):
+            return True
+        if e.get("k") in ("ImplicitCast", "ExplicitCast") and (e.get("from_c") or "").replace("const ", "").strip() in _I32:
+            return True
+        if e.get("k") == "Cond":
+            return reduced(e.get("then")) and reduced(e.get("else"))
+        return False
+    bad = {}
+    ncast = 0
+    for f in fns:
+        rep.count("obligations:L11")
+        for x, _ in R.find(f["body"], lambda x: x.get("k") in ("ImplicitCast", "ExplicitCast") and x.get("from_c") is not None):
+            frm = x["from_c"].replace("const ", "").strip()
+            to = x["to_c"].replace("const ", "").strip()
+            if frm in _I64 and to in _I32:
+                ncast += 1
+                if not reduced(x["e"]):
+                    n = f["name"].replace("boost::gil::", "")
+                    bad.setdefault(n, (f, []))[1].append({"narrowed": R.key(x["e"])[:160], "from": frm, "to": to, "line": x.get("line")})
+    for n, (f, lst) in sorted(bad.items()):
+        uniq = []
+        for b in lst:
+            if b not in uniq:
+                uniq.append(b)
+        rep.violation("L11-narrowed-offset", "L11:%s" % n, R.fn_where(f), {"casts": uniq, "witness": "advance by 2^31 bits: int(offset + 2^31) == offset - 2^31, the reference lands 512 MiB before its target"})
+    if not bad:
+        rep.ok("L11-narrowed-offset", "L11:%d navigation functions" % len(fns), "%d narrowing casts, all of reduced operands" % ncast)
+    rep.floor("obligations:L11", 1200)
